@@ -530,17 +530,26 @@ func main() {
 		add(run(c.Sender, c.Ops), "corpus:"+filepath.Base(f))
 	}
 	nb := o.Scale(480, 40000)
+	if o.N > 0 { // -n (search campaigns of bin/check): split the volume, no 8192-record runs
+		nb = o.N / 2
+	}
 	for i := 0; i < nb; i++ {
 		ops, bs := genBoundary(r, i)
 		add(run(uint32(r.Intn(1<<16)), ops), bs...) //nolint:gosec
 	}
 	ns := o.Scale(520, 150000)
+	if o.N > 0 {
+		ns = o.N - o.N/2
+	}
 	for i := 0; i < ns; i++ {
 		cur = 1 + i%8
 		ops, bs := genStructured(r)
 		add(run(uint32(r.Intn(1<<16)), ops), bs...) //nolint:gosec
 	}
 	nl := o.Scale(0, 4)
+	if o.N > 0 {
+		nl = 0
+	}
 	for i := 0; i < nl; i++ {
 		ops, bs := genLongRun(r)
 		add(run(4242, ops), bs...)
